@@ -138,6 +138,7 @@ def run(ctx):
     shared_label_runs(ctx)
     two_app_new_model_runs(ctx)
     other_database_runs(ctx)
+    inside_atomic_runs(ctx)
     migration_runs(ctx, quick)
     migration_app_runs(ctx)
     ncases = 9 if quick else 120
@@ -383,6 +384,58 @@ def two_app_new_model_runs(ctx):
         for p in check_trace(trk, rk[0]) + saved_problems(trk) + after_fault_problems(trk, rk[0]):
             ctx.fail(None, 'two apps with new models, fault at write #%d of %d: %s' % (k, n, p),
                      dict(rep0, fault=k, signals=trk.signals(), failed_sql=trk.failed_sql))
+
+
+def inside_atomic_runs(ctx):
+    """the same upgrade in autocommit and inside a transaction the CALLER opened (transaction.atomic() around
+    Evolver.evolve(), foreign-key checks off as SQLite requires): the signals must be as truthful there - the run
+    that says `evolved` leaves the database in the state the autocommit run leaves it in"""
+    import random
+    from django.db import connections, transaction
+    from .. import dbrig
+    done = tries = 0
+    while done < 3 and tries < 15 and ctx.time_left() > 30:
+        tries += 1
+        case = evocases.gen_upgrade(random.Random(ctx.seed * 53 + tries), new_model=(tries % 2 == 0))
+        if case is None:
+            continue
+        seed = ctx.seed * 59 + tries
+        evocases.prepare_v0(case, seed)
+        evocases.save_db('at0')
+        evocases.install_v1(case)
+        tr_ref = evorig.Trace()
+        ref = evorig.run_evolver(trace=tr_ref)
+        if ref[0] != 'ok':
+            continue
+        snap_ref = evorig.snapshot()
+        evocases.restore_db('at0')
+        evocases.install_v1(case)
+        conn = connections['default']
+        tr = evorig.Trace()
+        conn.disable_constraint_checking()
+        try:
+            with transaction.atomic():
+                r = evorig.run_evolver(trace=tr)
+        except Exception as e:
+            r = ('error', e, tr)
+        finally:
+            conn.enable_constraint_checking()
+        done += 1
+        rep = {'scenario': 'Evolver.evolve() inside the caller\'s transaction.atomic()', 'spec0': case['spec0'],
+               'mutations': case['muts'], 'seed': seed, 'signals': tr.signals()}
+        ctx.count('inside_atomic:%s' % r[0])
+        ctx.case({'scenario': 'inside atomic', 'mutations': [sigs.model_mutation(m) for m in case['muts']],
+                  'signals': [x[0] for x in tr.signals()]}, nontrivial=True, sample_cap=2)
+        for p in check_trace(tr, r[0]) + (saved_problems(tr) if r[0] == 'ok' else []):
+            ctx.fail(None, 'upgrade inside the caller\'s transaction: %s' % p, rep)
+        if r[0] == 'ok':
+            snap = evorig.snapshot()
+            diff = [k for k in snap if snap[k] != snap_ref[k]]
+            if diff:
+                ctx.fail(None, 'upgrade inside the caller\'s transaction: evolved was sent, but the database is not in the '
+                         'state the same upgrade leaves outside a transaction (%s differ)' % diff, rep)
+        elif 'evolved' in [x[0] for x in tr.signals()]:
+            ctx.fail(None, 'upgrade inside the caller\'s transaction: evolved was sent although the run raised', rep)
 
 
 def other_database_runs(ctx):
